@@ -1,0 +1,147 @@
+//go:build verif
+
+// Contracts for package secp256k1 (scalars, points, scalar multiplication), checked by /verif (vcgo).
+// Comment-only; excluded from normal builds.
+// val(s) = fmN(e4(s.m)) is the residue mod N represented by a Scalar; val(fe) the residue mod P of an Element.
+
+package secp256k1
+
+//@ type Scalar
+//@   inv e4(self.m) < N
+//@
+//@ func (*Scalar).Zero
+//@   props C02 C18
+//@   ensures val(s) == 0 && result == s
+//@   modifies s.m
+//@
+//@ func (*Scalar).One
+//@   props C02 C18
+//@   ensures val(s) == 1 && result == s
+//@   modifies s.m
+//@
+//@ func (*Scalar).Add
+//@   props C02 C18
+//@   ensures val(s) == old(val(a)) + old(val(b)) && result == s
+//@   modifies s.m
+//@
+//@ func (*Scalar).Subtract
+//@   props C02 C18
+//@   ensures val(s) == old(val(a)) - old(val(b)) && result == s
+//@   modifies s.m
+//@
+//@ func (*Scalar).Negate
+//@   props C02 C18
+//@   ensures val(s) == -old(val(a)) && result == s
+//@   modifies s.m
+//@
+//@ func (*Scalar).Multiply
+//@   props C02 C18
+//@   ensures val(s) == old(val(a)) * old(val(b)) && result == s
+//@   modifies s.m
+//@
+//@ func (*Scalar).Square
+//@   props C02 C18
+//@   ensures val(s) == old(val(a)) * old(val(a)) && result == s
+//@   modifies s.m
+//@
+//@ func (*Scalar).pow2k
+//@   props C02
+//@   panics k == 0
+//@   ensures val(s) == pow(old(val(a)), pow2(k)) && result == s
+//@   loop 0 invariant 1 <= i && i <= k && val(s) == pow(old(val(a)), pow2(i))
+//@   loop 0 modifies s.m
+//@   using powsq_N(old(val(a)), i)
+//@   modifies s.m
+//@
+//@ func (*Scalar).Set
+//@   props C02 C18
+//@   ensures val(s) == old(val(a)) && same(s.m, old(a.m)) && result == s
+//@   modifies s.m
+//@
+//@ func (*Scalar).SetBytes
+//@   props C02 C18
+//@   ensures val(s) == fn(os2ip(src)) && result0 == s
+//@   ensures result1 == ite(os2ip(src) >= N, 1, 0)
+//@   modifies s.m
+//@
+//@ func (*Scalar).SetCanonicalBytes
+//@   props C02 C18
+//@   split case os2ip(src) < N
+//@   ensures os2ip(src) < N ==> result0 == s && result1 == nil && val(s) == fn(os2ip(src))
+//@   ensures os2ip(src) >= N ==> result0 == nil && result1 != nil && unchanged(s.m)
+//@   modifies s.m
+//@
+//@ func (*Scalar).getBytes
+//@   props C02
+//@   ensures os2ip(dst) == lift(old(val(s)))
+//@   ensures result == dst[0:32]
+//@   modifies dst
+//@
+//@ func (*Scalar).Bytes
+//@   props C02 C18
+//@   ensures len(result) == 32 && os2ip(result) == lift(val(s))
+//@   fresh result
+//@
+//@ func (*Scalar).ConditionalSelect
+//@   props C02 C17 C18
+//@   ensures val(s) == ite(ctrl == 0, old(val(a)), old(val(b))) && result == s
+//@   modifies s.m
+//@
+//@ func (*Scalar).ConditionalNegate
+//@   props C02 C17 C18
+//@   ensures val(s) == ite(ctrl == 0, old(val(a)), -old(val(a))) && result == s
+//@   modifies s.m
+//@
+//@ func (*Scalar).Equal
+//@   props C02 C17
+//@   ensures result == ite(val(s) == val(a), 1, 0)
+//@   using fm_inj_N(e4(s.m), e4(a.m))
+//@
+//@ func (*Scalar).IsZero
+//@   props C02 C17
+//@   ensures result == ite(val(s) == 0, 1, 0)
+//@   using fm_zero_N(e4(s.m))
+//@
+//@ func (*Scalar).IsGreaterThanHalfN
+//@   props C02 C04 C17
+//@   ensures result == ite(lift(val(s)) > HALFN, 1, 0)
+//@
+//@ func (*Scalar).uncheckedSetSaturated
+//@   props C02
+//@   requires e4(a) < N
+//@   ensures val(s) == fn(old(e4(a))) && result == s
+//@   modifies s.m
+//@
+//@ func NewScalarFrom
+//@   props C02 C18
+//@   ensures val(result) == val(other)
+//@   fresh result
+//@
+//@ func NewScalarFromUint64
+//@   props C02
+//@   ensures val(result) == fn(l0)
+//@   fresh result
+//@
+//@ func NewScalarFromBytes
+//@   props C02 C18
+//@   ensures val(result0) == fn(os2ip(src))
+//@   ensures result1 == ite(os2ip(src) >= N, 1, 0)
+//@   fresh result0
+//@
+//@ func NewScalarFromCanonicalBytes
+//@   props C02 C18
+//@   split case os2ip(src) < N
+//@   ensures os2ip(src) < N ==> result1 == nil && val(result0) == fn(os2ip(src))
+//@   ensures os2ip(src) >= N ==> result0 == nil && result1 != nil
+//@   fresh result0
+//@
+//@ func reduceSaturated
+//@   props C02
+//@   ensures result == ite(old(e4(src)) >= N, 1, 0)
+//@   ensures e4(dst) == old(e4(src)) - ite(old(e4(src)) >= N, N, 0)
+//@   modifies dst
+//@
+//@ func (*Scalar).Invert
+//@   props C02
+//@   ensures val(z) == pow(old(val(x)), N-2) && result == z
+//@   modifies z.m
